@@ -10,6 +10,8 @@ ghost_var("open_sessions", "int")   # sessions started and not yet ended
 ghost_var("conv_seen", "bool")      # some convergence check of this calibrate() call returned True
 ghost_var("saved_index", "int")     # current_batch_index captured by the last checkpoint write
 ghost_var("saved_n", "int")         # n_sampled_params captured by the last checkpoint write
+ghost_var("sched_updates", "int")   # scheduler.update() calls so far: the version of the scheduler's (pickled) state
+ghost_var("saved_sched_updates", "int")   # ... captured by the last checkpoint write
 
 klass("BaseSampler", fields={"batch_size": "pos", "max_deduplication_passes": "nat"})
 klass("BaseScheduler", fields={"_samplers": "seq[opaque:BaseSampler]"}, invariant=["len(self._samplers) >= 1"])
@@ -56,8 +58,10 @@ contract(f"{SB}::BaseScheduler.get_next_sampler", abstract=True, params={}, retu
          notes="abstract scheduler: designates one of ITS samplers (proved for RoundRobinScheduler; RL: see C09/C10)")
 contract(f"{SB}::BaseScheduler.update", abstract=True,
          params={"batch_id": "int", "new_params": "any", "new_losses": "any", "new_simulated_data": "any"},
-         props=["C02", "C09"], ensures=[], modifies=[],
-         notes="abstract scheduler update: does not write the calibrator or the arrays it is shown")
+         props=["C02", "C09"], ensures=[], ghost_ensures=["ghost.sched_updates == old(ghost.sched_updates) + 1"],
+         modifies=["ghost.sched_updates"],
+         notes="abstract scheduler update: does not write the calibrator or the arrays it is shown; it moves the "
+               "scheduler's own state to its next version (ghost counter)")
 contract(f"{SB}::BaseScheduler.session", is_cm=True, params={}, props=["C11", "C02"],
          may_raise=["BodyException"],
          ensures=["ghost.open_sessions == old(ghost.open_sessions) + 1"],
@@ -155,6 +159,9 @@ contract(f"{C}::Calibrator.calibrate", params={"n_batches": "int"}, returns="tup
              # the triggering batch is in the checkpoint: the last checkpoint write saw the final counters
              f"implies(self.saving_folder is not None and {_M} >= 1, ghost.saved_index == self.current_batch_index "
              "and ghost.saved_n == self.n_sampled_params)",
+             # C04 / C09: ... and the scheduler AS UPDATED by that batch (a pickle written before scheduler.update()
+             # resumes one batch behind)
+             f"implies(self.saving_folder is not None and {_M} >= 1, ghost.saved_sched_updates == ghost.sched_updates)",
              # --- C11 / sessions
              "ghost.open_sessions == 0",
              # --- C02: rows once recorded never change
@@ -178,7 +185,7 @@ contract(f"{C}::Calibrator.calibrate", params={"n_batches": "int"}, returns="tup
          modifies=["self.params_samp", "self.losses_samp", "self.series_samp", "self.batch_num_samp",
                    "self.method_samp", "self.n_sampled_params", "self.current_batch_index",
                    "self.random_generator.state", "ghost.open_sessions", "ghost.conv_seen", "ghost.saved_index",
-                   "ghost.saved_n"])
+                   "ghost.saved_n", "ghost.sched_updates", "ghost.saved_sched_updates"])
 
 loop_invariant(f"{C}::Calibrator.calibrate", 1, over="range(n_batches)", var="b",
                inv=_ALIGNED + [
@@ -189,6 +196,7 @@ loop_invariant(f"{C}::Calibrator.calibrate", 1, over="range(n_batches)", var="b"
                    f"implies(self.convergence_precision is not None and b >= 1, {_NOTCONV})",
                    "implies(self.saving_folder is not None and b >= 1, ghost.saved_index == self.current_batch_index "
                    "and ghost.saved_n == self.n_sampled_params)",
+                   "implies(self.saving_folder is not None and b >= 1, ghost.saved_sched_updates == ghost.sched_updates)",
                    "self.n_sampled_params >= old(self.n_sampled_params)",
                    "forall(range(0, old(self.n_sampled_params)), lambda i: self.losses_samp[i] == old(self.losses_samp[i]) "
                    "and self.batch_num_samp[i] == old(self.batch_num_samp[i]) and self.method_samp[i] == old(self.method_samp[i]) "
